@@ -136,14 +136,22 @@ def showRatExact? (q : Rat) : Option Str :=
       if sig ≤ 15 then some (sign ++ showNat ip ++ ['.'] ++ ds) else none
     | none => none
 
-/-- approximate rendering (15 significant digits, not rounded): only ever compared numerically -/
+/-- zeros between the decimal point and the first significant digit of `num/den < 1` (at most `fuel`) -/
+def leadZeros (num den : Nat) : Nat → Nat
+  | 0 => 0
+  | fuel + 1 => if num == 0 || num * 10 ≥ den then 0 else 1 + leadZeros (num * 10) den fuel
+
+/-- approximate rendering (at least 17 significant digits, not rounded): only ever compared numerically,
+    or re-read as a number when a cached value is reused — so small magnitudes keep their precision -/
 def showRatApprox (q : Rat) : Str :=
   let neg := q < 0
   let a : Rat := if neg then -q else q
   let ip := a.num.natAbs / a.den
-  let scaled := (a.num.natAbs % a.den) * 1000000000000000 / a.den
+  let fp := a.num.natAbs % a.den
+  let places := 17 + (if ip == 0 then leadZeros fp a.den 400 else 0)
+  let scaled := fp * 10 ^ places / a.den
   let fs := showNat scaled
-  let pad := List.replicate (15 - fs.length) '0'
+  let pad := List.replicate (places - fs.length) '0'
   (if neg then ['-'] else []) ++ showNat ip ++ ['.'] ++ pad ++ fs
 
 /-- text of `format!("{}", f64)`; second component: is the text exact? -/
